@@ -13,6 +13,8 @@ What is proved:
  * `static_satisfy_total` — from `Solver(vs, cs)`, `satisfy()` never exhausts the model's fuel (heap loops,
    the merge loop, the DFS): it returns normally or throws;
  * `static_solve_total` — the same for `solve()` (tree traversals of `refine` included);
+ * `tree_traversals_total` — `findMinLM` / `Block::split` never exhaust their fuel under `InvC` (also valid for the
+   IncSolver model's states);
  * `static_satisfy_fixed_point` — a start in which every constraint holds is returned unchanged;
  * `static_satisfy_post` / `static_solve_post` — a normal return means the exit scan passed: every
    constraint has slack ≥ ZERO_UPPERBOUND at the reported positions;
@@ -182,6 +184,16 @@ theorem static_solve_total (vs : Array (Rat × Rat × Rat)) (cs : Array Con)
       have := AdaptaVerif.Lemmas.VpscStaticFuel.solve_outcome_bad (SSt.init vs cs) (by rw [hr])
       rw [hb] at this
       cases this
+
+/-- **tree_traversals_total**: the two tree traversals shared by the static and the incremental solver model
+    never exhaust their fuel `n + 1` in a state whose in/out lists are exact and whose active constraints form
+    a forest (`InvC`, any `inactive` list — so also in every state of `Props/C01.block_inv`): `Block::findMinLM`
+    (`compute_dfdv`) and `Block::split` (`populateSplitBlock`) leave `fuelOut` as it was. -/
+theorem tree_traversals_total (st : St) {n : Nat} {ia : Array Nat} (hI : InvC st.vars st.cons n ia) :
+    (∀ b, (st.findMinLM b).1.fuelOut = st.fuelOut) ∧
+    (∀ old ci, ci < st.cons.size → old < st.blocks.size → (st.split old ci).1.fuelOut = st.fuelOut) :=
+  ⟨fun b => AdaptaVerif.Lemmas.VpscStaticFuel.findMinLM_fuel' st hI b,
+   fun old ci h1 h2 => AdaptaVerif.Lemmas.VpscStaticFuel.split_fuel st hI old ci h1 h2⟩
 
 /-- **static_satisfy_fixed_point**: if every constraint already holds at the start (`Solver(vs, cs)` places
     every variable at its desired position), `satisfy()` merges nothing and returns those positions: a feasible
